@@ -30,8 +30,8 @@ import (
 
 // Job is a batch of scans over one byte string.
 type Job struct {
-	Data  []byte `json:"data"`
-	Procs int    `json:"procs"`
+	Data  []byte  `json:"data"`
+	Procs int     `json:"procs"`
 	Skip  [3]bool `json:"skip"` // SkipNodes, SkipWays, SkipRelations
 	// Mode "cut": one scan of Data[:c] for every c in Units.
 	// Mode "stop": for every k in Units: scan k objects, read the offsets, Close, then scan
@@ -59,11 +59,11 @@ type Obs struct {
 	FSB  []int64 `json:"fsb,omitempty"`  // trace: after every returned object; stop: [value at the stop]
 	PFSB []int64 `json:"pfsb,omitempty"` // same for PreviousFullyScannedBytes
 	// stop mode: the second scanners
-	Resumed    []uint64 `json:"resumed,omitempty"`
-	ResumedErr int      `json:"resumed_err,omitempty"`
+	Resumed        []uint64 `json:"resumed,omitempty"`
+	ResumedErr     int      `json:"resumed_err,omitempty"`
 	PrevResumed    []uint64 `json:"prev_resumed,omitempty"`
 	PrevResumedErr int      `json:"prev_resumed_err,omitempty"`
-	StopShort  bool     `json:"stop_short,omitempty"` // fewer than k objects could be scanned
+	StopShort      bool     `json:"stop_short,omitempty"` // fewer than k objects could be scanned
 }
 
 // Tok is the one-token identity of an object.
@@ -138,6 +138,9 @@ func runUnit(j *Job, u int) Obs {
 		}
 		err := s.Err()
 		o.Err, o.ErrText = errClass(err), errText(err)
+		// once more after Scan has returned false
+		o.FSB = append(o.FSB, s.FullyScannedBytes())
+		o.PFSB = append(o.PFSB, s.PreviousFullyScannedBytes())
 		s.Close()
 	case "stop":
 		s := newScanner(j.Data, j)
@@ -213,6 +216,8 @@ type Runner struct {
 	Timeout time.Duration // per unit of work
 	Crashes int
 	Hangs   int
+	// OutsideScan counts worker deaths that could not be attributed to a unit of work.
+	OutsideScan int
 	// the worker runs with the garbage collector off (every scan allocates a 32 MiB read
 	// buffer that is never touched; collecting and re-zeroing it costs ~5 ms per scan) and is
 	// replaced after MaxUnits scans to bound its address space.
@@ -326,7 +331,14 @@ func (r *Runner) Run(j Job) ([]Obs, error) {
 					msg := crashClass(r.stderr.String())
 					r.cmd = nil
 					if inflight < 0 {
-						return nil, fmt.Errorf("pbfrun: worker died outside a scan: %s", msg)
+						// not attributable to a unit of work: retry the rest of the job once in a
+						// fresh worker; a crash caused by the input will then recur inside a scan
+						r.OutsideScan++
+						if r.OutsideScan > 3 {
+							return nil, fmt.Errorf("pbfrun: worker died outside a scan: %s", msg)
+						}
+						done = true
+						break
 					}
 					r.Crashes++
 					res = append(res, Obs{Unit: inflight, Crash: true, CrashMsg: msg})
